@@ -14,7 +14,9 @@ def setup(rep):
     runner.hash_functions(rep, FUNCS)
     rep.min_obligations = 100
     rep.clause("inelasticity", "P", "GQRS and CTW (eq. 14 and 15 branches) inelasticities lie in [0,1] for log10(E) in [3,12] "
-               "(power axioms A2, constants enclosed by interval arithmetic A12)")
+               "(power axioms A2, constants enclosed by interval arithmetic A12); the CTW value is the published inverse-CDF "
+               "expression of its two uniform draws with the published coefficients of the channel (CC nu, CC nubar, NC) and of "
+               "the low-y branch, the branch being chosen with the published probability")
     rep.clause("interaction-choice", "P", "CC/NC chosen by the stated thresholds on a fresh U[0,1) (A7); CTW NC fraction is a probability")
     rep.clause("shower-fractions", "P", "em, had >= 0, em+had <= 1, = 1 for CC nu_e, (0, y) for NC, for all 6 neutrino types x "
                "{CC,NC} x both models; the secondary retry loop (loop invariant) only returns energy-conserving values; "
